@@ -296,4 +296,17 @@ CHECKS = {
         assumptions=["non-negative literals (the grammar's literal forms)", "time zone UTC"],
         technique="differential property-based testing (SQL WHERE vs naive filter of SELECT *)",
     ),
+    "C20": dict(
+        test="TestC20", level="exploration", shards=16,
+        tiers=dict(quick=dict(checks=30, timeout=600), thorough=dict(checks=2000, timeout=3000)),
+        rule="rapid stored histories (as C19) x 2-6 statements SELECT <permuted subset of columns, each optionally AS "
+             "alias, optionally Epoch> FROM `b` [WHERE Epoch >= t] [LIMIT n] with n in {1,2,count-1,count,count+1}, and "
+             "one INSERT INTO `t` SELECT * FROM `b` [WHERE Epoch range] into a bucket of the same schema and an equal or "
+             "coarser timeframe; oracle: output has exactly the selected columns under alias-or-name (+ time columns) "
+             "with the values of the server's own SELECT *, LIMIT n = first n rows of the filtered result, target bucket "
+             "= selected rows re-slotted to its timeframe (last row per interval wins), source unchanged; non-trivial = "
+             "alias together with a LIMIT below the row count, or an INSERT whose rows collapse into fewer intervals",
+        assumptions=["time zone UTC", "INSERT uses the instance-wide writer (executor.ThisInstance)"],
+        technique="differential property-based testing against the server's own SELECT *",
+    ),
 }
